@@ -151,6 +151,7 @@ type rt struct {
 	lastID    int
 	policy    int
 	resetters []func()
+	doneWatch []*doneWatch
 }
 
 // memLimit ends an execution whose live heap exceeds it (treated like the
@@ -383,6 +384,9 @@ func (op *Op) isEnabled() bool {
 // ended (deadlock, divergence).
 func (r *rt) pick(cur *Thread) *Thread {
 	for {
+		if len(r.doneWatch) > 0 {
+			r.pollDone()
+		}
 		// canonical order of the alternatives: the running thread first if it
 		// is still enabled, then - policy 0 - ascending thread numbers
 		// (early threads have priority: a worker runs a whole remote
